@@ -235,3 +235,8 @@ def add_task(uid):
 
 TASKS["layer1/Circuit.add[default]"] = add_task(False)
 TASKS["layer1/Circuit.add[uid]"] = add_task(True)
+
+
+from contracts import layer2  # noqa: E402
+layer1.SUMMARIES.update(layer2.SUMMARIES)
+TASKS["layer1/Circuit.copy"] = refine_task("Circuit.copy", {"": []}, [])
